@@ -68,6 +68,7 @@ func checkC16(r *core.Run) {
 	c16ResumePosition(r, p, "R-C16-position")
 	c16RecordFromZero(r, p, "R-C16-layout")
 	noAppendOnPositioned(r, p, "R-C16-position", "lib/chain", 2)
+	c16CacheWithinIndex(r, p, "R-C16-layout")
 }
 
 func c16Layouts(r *core.Run, p *core.Program, wo, lb *ssa.Function) {
@@ -1306,4 +1307,50 @@ func loadAddr(v ssa.Value) ssa.Value {
 		return ld.X
 	}
 	return nil
+}
+
+// c16CacheWithinIndex: the block cache is keyed like the index, and the code that evicts from it looks every
+// cached key up in the index without a nil test.  So a record that is deleted from the index must leave the
+// cache with it: every delete(db.blockIndex, k) has a delete(db.cache, k) with the same key that is executed
+// whenever it is (same block, or dominating it).
+func c16CacheWithinIndex(r *core.Run, p *core.Program, rule string) {
+	n := 0
+	for _, fn := range p.ModuleFuncs() {
+		if fn.Pkg == nil || !strings.HasSuffix(fn.Pkg.Pkg.Path(), "lib/chain") {
+			continue
+		}
+		type del struct {
+			c   *ssa.Call
+			key string
+		}
+		var idx, cache []del
+		an.Instrs(fn, func(i ssa.Instruction) {
+			c, ok := i.(*ssa.Call)
+			if !ok {
+				return
+			}
+			b, ok := c.Call.Value.(*ssa.Builtin)
+			if !ok || b.Name() != "delete" || len(c.Call.Args) != 2 {
+				return
+			}
+			f, _ := an.FieldOf(loadAddr(c.Call.Args[0]))
+			switch f {
+			case "lib/chain.BlockDB.blockIndex":
+				idx = append(idx, del{c, an.Expr(c.Call.Args[1])})
+			case "lib/chain.BlockDB.cache":
+				cache = append(cache, del{c, an.Expr(c.Call.Args[1])})
+			}
+		})
+		for k, d := range idx {
+			n++
+			ok := false
+			for _, c := range cache {
+				if c.key == d.key && (c.c.Block() == d.c.Block() || c.c.Block().Dominates(d.c.Block())) {
+					ok = true
+				}
+			}
+			r.Check(ok, rule, fmt.Sprintf("cache-within-index/%s#%d", core.FuncName(fn), k+1), p.Pos(d.c.Pos()), "the record leaves the cache together with the index", "a record is deleted from the index but may stay in the cache: the eviction scan looks cached keys up in the index without a nil test and panics (with the store's mutex held) once the cache is full")
+		}
+	}
+	r.Check(n >= 1, rule, "cache-within-index/sites", "-", fmt.Sprintf("%d deletions from the index", n), "no deletion from the block index found")
 }
